@@ -282,9 +282,8 @@ impl RenetServer {
 
     /// Disconnects a local [RenetClient], created with [`Self::new_local_client`].
     pub fn disconnect_local_client(&mut self, client_id: ClientId, client: &mut RenetClient) {
-        if client.is_disconnected() {
-            return;
-        }
+        // The server side must be removed even if the local client has already disconnected itself
+        // (disconnect does nothing then).
         client.disconnect();
 
         if let Some(connection) = self.connections.remove(&client_id) {
